@@ -17,7 +17,8 @@ RULE = ('seeded family: valid prefix (possibly ending inside a fragmented '
 SHRINK_LISTS = [('items',), ('items', '*', 'inner', '*'), ('trailing',),
                 ('cuts',)]
 EXPECTED_PROBES = ['inside_fragmented', 'has_trailing', 'cut_inside_violation',
-                   'violation_while_closing']
+                   'violation_while_closing', 'offer_declined',
+                   'empty_first_fragment']
 ASSUMPTIONS = ['close codes 1012-1014 and >= 5000 and RSV1 on control frames '
                'under compression are not generated (the property does not '
                'quantify over them)']
@@ -145,6 +146,13 @@ def make_case(family, i, rng, tier):
     case['gaps'] = [rng.choice([0, 0, 1000]) for _ in range(3)]
     if rng.random() < 0.15:
         case['app_close'] = True
+    if cls == 'rsv_no_ext' and rng.random() < 0.4:
+        # permessage-deflate offered by the client, declined by the server:
+        # RSV1 is still a violation
+        case['offer_declined'] = True
+    if cls in ('bad_utf8_later_fragment', 'bad_utf8_split_across') and \
+            rng.random() < 0.35:
+        case['empty_first'] = True
     case['compress'] = cls == 'rsv23_with_ext' or \
         (cls in ('reserved_opcode', 'masked', 'fragmented_control',
                  'control_126', 'close_1byte') and rng.random() < 0.2)
@@ -182,6 +190,8 @@ def violation_frames(case, enc):
     elif cls == 'rsv_no_ext':
         vmark()
         r = rng.randrange(1, 8)
+        if case.get('offer_declined') and rng.random() < 0.7:
+            r = 4               # RSV1 only
         op = rng.choice([1, 2, 9, 10, 8] if not inside else [0, 9, 10])
         body = pay if op != 8 else peer.enc_close_payload(1000, 'x')
         ST.emit(enc, op, body[:120], rsv1=r >> 2, rsv2=(r >> 1) & 1, rsv3=r & 1)
@@ -252,7 +262,11 @@ def violation_frames(case, enc):
             ST.emit(enc, 1, pre + bad + post)
     elif cls == 'bad_utf8_later_fragment':
         good = S.rand_text(rng, rng.choice([1, 5, 60])).encode('utf-8')
-        ST.emit(enc, 1, good, fin=0)
+        if case.get('empty_first'):
+            ST.emit(enc, 1, b'', fin=0)
+            ST.emit(enc, 0, good, fin=0)
+        else:
+            ST.emit(enc, 1, good, fin=0)
         if rng.random() < 0.4:
             ST.emit(enc, 9, b'between')
             enc.expected.append(('ping', b'between'))
@@ -264,7 +278,11 @@ def violation_frames(case, enc):
                           b'\xed\xa0\x80', b'\xf4\x90\x80\x80',
                           b'\xe0\x80\xaf'])
         k = rng.randrange(1, len(seq))
-        ST.emit(enc, 1, b'abc' + seq[:k], fin=0)
+        if case.get('empty_first'):
+            ST.emit(enc, 1, b'', fin=0)
+            ST.emit(enc, 0, b'abc' + seq[:k], fin=0)
+        else:
+            ST.emit(enc, 1, b'abc' + seq[:k], fin=0)
         vmark()
         ST.emit(enc, 0, seq[k:] + b'def', fin=rng.choice([0, 1]))
     elif cls == 'bad_utf8_close_reason':
@@ -330,6 +348,11 @@ def build(case):
     if case.get('compress'):
         extra = [b'Sec-WebSocket-Extensions: permessage-deflate']
         ws = {'compress': True}
+    elif case.get('offer_declined'):
+        ws = {'compress': True}
+        enc.probes['offer_declined'] += 1
+    if case.get('empty_first'):
+        enc.probes['empty_first_fragment'] += 1
     app = None
     if case.get('app_close'):
         app = [{'when': {'name': 'ready'},
